@@ -559,6 +559,13 @@ def wire_level(ctx, paths):
                     if client is None:
                         client = aioftp.Client(socket_timeout=5, encoding=enc)
                         await client.connect("127.0.0.1", port)
+                        # an impatient caller asks for a listing before logging in (refused) and carries on: what the
+                        # client does afterwards is what it does for a caller that logged in first
+                        for early in (lambda: client.list("/"), lambda: client.stat("/"), lambda: client.get_current_directory()):
+                            try:
+                                await asyncio.wait_for(early(), 5)
+                            except (aioftp.StatusCodeError, asyncio.TimeoutError, ValueError):
+                                pass
                         await client.login()
                     if server.path_io_factory.state is not None:
                         server.path_io_factory.state[0].content.clear()
